@@ -363,6 +363,52 @@ def str_rt_search(binary, budget_s):
     return None
 
 
+def plan_search(binary, budget_s):
+    """data::encodation_plan (C18, the decided clauses): only enabled modes, positions within the input, never increasing,
+    ending at 0; and every latch codeword of the encoder's output is requested by the plan, in order"""
+    rng = random.Random(5)
+    LATCH = {230: 'C40', 231: 'Base256', 238: 'X12', 239: 'Text', 240: 'Edifact'}
+    lines, meta = [], []
+    t0 = time.time()
+    for data in rt_inputs(rng):
+        if len(data) > 60:
+            continue
+        for ms in MODESETS:
+            lines.append('plan default %s %s' % (ms, hx(data)))
+            meta.append((data, ms))
+    res = run_lines(binary, lines, timeout=max(60, budget_s * 3))
+    for l, (data, ms), r in zip(lines, meta, res):
+        if r.startswith('panic'):
+            return {'call': l, 'observed': r, 'expected': 'a plan or None (never a panic)'}
+        if not r.startswith('ok '):
+            continue
+        parts = r.split()
+        plan = [(int(x.split(':')[0]), x.split(':')[1]) for x in parts[1].split(',')] if parts[1] and ':' in parts[1] else []
+        enabled = None if ms == 'all' else set(ms.split(','))
+        pos = [n for n, _ in plan]
+        bad = None
+        if not plan or pos[-1] != 0:
+            bad = 'the last entry must be at 0 characters left'
+        elif any(n > len(data) for n in pos):
+            bad = 'positions within the input (%d characters)' % len(data)
+        elif any(pos[i] < pos[i + 1] for i in range(len(pos) - 1)):
+            bad = 'positions never increase'
+        elif enabled is not None and any(m not in enabled for _, m in plan):
+            bad = 'only the enabled modes ' + ms
+        if bad is None and parts[2].startswith('cw=') and not parts[2].startswith('cw=err'):
+            cw = bytes.fromhex(parts[2][3:]) if len(parts[2]) > 3 else b''
+            if isoref.iso_decode(cw) is not None:
+                order = [{'c40': 'C40', 'b256': 'Base256', 'x12': 'X12', 'text': 'Text', 'edifact': 'Edifact'}[m] for m in isoref.LAST_ORDER]
+                want = [m for _, m in plan if m != 'Ascii']
+                # subsequence test
+                it = iter(want)
+                if not all(any(x == w for w in it) for x in order):
+                    bad = 'the latches of the output %s are requested by the plan, in order' % order
+        if bad:
+            return {'call': l, 'observed': r, 'expected': bad}
+    return None
+
+
 def perf_search(binary, budget_s):
     """planning work (C19): inputs of 240 characters made of alternating runs of the character classes must be encoded in well
     under 10 s (the unchanged tree needs about 20 ms each); a call that does not finish in 10 s is the witness"""
@@ -407,7 +453,7 @@ SEARCH = {
     'V-X12': [('rt', 75)],
     'V-B256': [('rt', 75)],
     'V-DRV': [('rt', 75)],
-    'V-OPT': [('rt', 75), ('perf', 40)],
+    'V-OPT': [('plan', 40), ('rt', 75), ('perf', 40)],
     'V-PLAN': [('rt', 75)],
     'V-ADDSW': [('rt', 75), ('perf', 40)],
     'V-C40': [('rt', 75)],
@@ -438,6 +484,8 @@ def find_witness(verif, unit):
                 w = rt_search(b, budget)
             elif kind == 'eci':
                 w = eci_search(b, budget)
+            elif kind == 'plan':
+                w = plan_search(b, budget)
             elif kind == 'perf':
                 w = perf_search(b, budget)
             elif kind == 'str_rt':
